@@ -6,9 +6,12 @@ up to n halvings (|z| <= 0.1 * 4^n).  On each path the returned c_k(z) is a poly
 (invfactorial[] entries as exact rationals) combined by the code's own argument-doubling formulas; z3 proves for all z of that
 range that it agrees with the Taylor polynomial of the Stumpff function c_k(z) = sum_j (-z)^j/(k+2j)!  (degree 24, truncation
 error < 1e-30 on the range) to within 1e-15 relative to the natural scale.  This pins every entry of invfactorial[], the
-Horner recurrences and every doubling formula.  stiefel_Gs3 is then checked to be c_k(beta X^2) X^k."""
+Horner recurrences and every doubling formula.  stiefel_Gs3 is then checked to be c_k(beta X^2) X^k.
+The bisection fallback of the solver (hyperbolic branch) is covered by c03_bracket.py: mirror symmetry of the bracket under dt -> -dt,
+sign, and the closed forms dt/q and dt/(r0 + v_q dt)."""
 import sys, os, time, ctypes, math
 sys.path.insert(0, os.path.dirname(os.path.dirname(os.path.abspath(__file__))))
+sys.path.insert(0, os.path.dirname(os.path.abspath(__file__)))
 import z3
 from fractions import Fraction
 from llsym import build
@@ -103,9 +106,15 @@ def run_gs3(u):
     return rep
 
 def worker(u):
+    if u['what'] == 'bracket':
+        import c03_bracket
+        return c03_bracket.run_bracket(u)
     return run_gs3(u) if u['what'] == 'gs3' else run_stumpff(u)
 
 def replay(data):
+    if data.get('kind') == 'bracket':
+        import c03_bracket
+        return c03_bracket.replay(data)
     return native_stumpff(data['fn'], data['K'], data['z'])
 
 def main():
@@ -116,12 +125,13 @@ def main():
     us = [dict(what='stumpff', fn='stumpff_cs3', K=4, nmax=nmax, sign=s, t_ms=20000 if tier == 'quick' else 120000) for s in (1, -1)]
     us += [dict(what='stumpff', fn='stumpff_cs', K=6, nmax=nmax, sign=s, t_ms=20000 if tier == 'quick' else 120000) for s in (1, -1)]
     us.append(dict(what='gs3'))
+    us.append(dict(what='bracket', t_ms=20000 if tier == 'quick' else 120000))
     rep = run_units(us, worker)
     code = finish(PID, tier, rep, t0,
-        bounds=dict(argument_range='|z| <= %g (up to %d argument halvings)' % (0.1 * 4 ** nmax, nmax), functions=['stumpff_cs3 (c0..c3)', 'stumpff_cs (c0..c5)', 'stiefel_Gs3'], tolerance='1e-15 relative to 1/k! + |c_k|'),
+        bounds=dict(argument_range='|z| <= %g (up to %d argument halvings)' % (0.1 * 4 ** nmax, nmax), functions=['stumpff_cs3 (c0..c3)', 'stumpff_cs (c0..c5)', 'stiefel_Gs3', 'reb_whfast_kepler_solver (control flow into the bisection fallback, hyperbolic branch: bracket ends)'], tolerance='1e-15 relative to 1/k! + |c_k|'),
         assumptions=['real arithmetic (the polynomial the code evaluates, with its own double-precision coefficients taken exactly)', 'reference = Taylor polynomial of degree 24 of the Stumpff functions'],
         outside=['the headline claim: exactness of a whole Kepler step for every (e, a, dt), termination and NaN-freedom of the Newton / quartic / bisection iterations in floating point',
-                 'the Newton and f-g update formulas of reb_whfast_kepler_solver', '|z| beyond the bound (more halvings)', 'WHFast512', 'rounding error magnitude'],
+                 'the Newton / quartic update formulas, the f-g update and the elliptic bisection bracket of reb_whfast_kepler_solver', 'the G functions inside the solver run are arbitrary reals (stub): the bracket obligations hold whatever they return', '|z| beyond the bound (more halvings)', 'WHFast512', 'rounding error magnitude'],
         domain_note='REAL: univariate polynomial inequalities decided by nlsat (z3) / cvc5')
     sys.exit(code)
 
